@@ -292,7 +292,7 @@ def handle : List String → String
         let storeRegion := (indexBytes.take (indexBytes.length - 8)).drop fstLen
         let store := openStore storeRegion
         let addrs := store.all
-        s!"{",".intercalate (addrs.map (fun a => s!"{a.firstOrd}:{a.start}:{a.stop}"))}|{showNats (os.map store.locateOrd)}|reenc={showBool (store.reencodeOk && reencodeStoreOk storeRegion && reencodeStoreOwnOk storeRegion)}"
+        s!"{",".intercalate (addrs.map (fun a => s!"{a.firstOrd}:{a.start}:{a.stop}"))}|{showNats (os.map store.locateOrd)}|reenc={showBool (store.reencodeOk && reencodeStoreOk storeRegion && reencodeStoreOwnOk storeRegion && rebuildStoreOk storeRegion)}"
     | _, _ => "bad-op"
   | ["o2t", kind, h, os] =>
     if kind != "void" && kind != "u64" && kind != "range" then "bad-op" else
